@@ -102,6 +102,39 @@ class Impl:
         self.es_tree = luqum.elasticsearch.tree
         self.schema = luqum.elasticsearch.schema
         self.nested = luqum.elasticsearch.nested
+        self._foreign_visitors_first()
+
+    def _foreign_visitors_first(self):
+        """Before anything is checked, visitors that use the documented knobs (`visitor_method_prefix`,
+        `generic_visitor_method_name`) walk a tree with every item class, as another part of an application may
+        have done in the same process. The library's own visitors must not be affected by what those looked up
+        (seeded C10-G: a module-level cache of method names keyed by the item class only)."""
+        T, V = self.tree, self.visitor
+        try:
+            w = T.Word("a")
+            sample = T.UnknownOperation(
+                T.AndOperation(T.SearchField("f", T.FieldGroup(T.OrOperation(T.Word("a"), T.Phrase('"b"')))),
+                               T.Not(T.Group(T.BoolOperation(T.Plus(w), T.Prohibit(T.Regex("/r/")))))),
+                T.Boost(T.Fuzzy(T.Word("c"), "2"), "3"), T.Proximity(T.Phrase('"p q"'), "2"),
+                T.Range(T.Word("1"), T.Word("2")), T.From(T.Word("1")), T.To(T.Word("2")), T.NoneItem())
+
+            class OnVisitor(V.TreeVisitor):
+                visitor_method_prefix = "on_"
+                generic_visitor_method_name = "fallback"
+
+                def fallback(self, node, context):
+                    yield from V.TreeVisitor.generic_visit(self, node, context)
+
+            class OnTransformer(V.TreeTransformer):
+                visitor_method_prefix = "handle_"
+
+            class OnPath(V.PathTrackingVisitor):
+                visitor_method_prefix = "see_"
+            OnVisitor(track_parents=True).visit(sample)
+            OnTransformer(track_new_parents=True).visit(sample)
+            OnPath().visit(sample)
+        except Exception:
+            pass        # whatever this does, the checks that follow judge the library
 
     def parse(self, q):
         return self.parser.parser.parse(q, lexer=self.parser.lexer)
